@@ -53,14 +53,14 @@ def layout_ok(F, sg_pos, sg_len, sg_attr, sg_type, sg_vrp, sg_vrl):
     return (len(sg_len) == len(sg_pos) and len(sg_attr) == len(sg_pos) and len(sg_type) == len(sg_pos)
             and len(sg_vrp) == len(sg_pos) and len(sg_vrl) == len(sg_pos)
             and forall(0, len(sg_pos), lambda j: seg_ok(F, j, sg_pos, sg_len, sg_attr, sg_type, sg_vrp, sg_vrl),
-                       trigger=lambda j: [sg_pos[j], sg_len[j], sg_attr[j]])
+                       trigger=lambda j: [sg_len[j]])
             and forall(0, len(sg_pos) - 1, lambda j: seg_next(j, sg_pos, sg_len, sg_vrp, sg_vrl),
                        trigger=lambda j: [sg_len[j]])
             # positions increase along the file (a consequence of the two clauses above, stated so that the
             # prover does not need induction over the distance between two segments)
             and forall_n(lambda a, b: implies(0 <= a and a <= b and b < len(sg_pos), sg_vrp[a] <= sg_vrp[b] and sg_pos[a] <= sg_pos[b]
                                               and sg_vrp[a] + sg_vrl[a] <= sg_vrp[b] + sg_vrl[b]),
-                         trigger=lambda a, b: (sg_vrp[a], sg_vrp[b])))
+                         trigger=lambda a, b: (sg_len[a], sg_len[b])))
 
 def at(self, j, sg_pos, sg_len, sg_attr, sg_type, sg_vrp, sg_vrl):
     """the reader's cursor (visible record + segment header fields) denotes segment j"""
@@ -183,7 +183,8 @@ def register_physical(reg):
                                              ' and len(self.file.data) - (sg_pos[j] + sg_len[j]) < 4',
                 'ExceptionLogicalRecordSegmentHeaderEOF': 'j == len(sg_pos) - 1 and sg_pos[j] + sg_len[j] != sg_vrp[j] + sg_vrl[j]'
                                                           ' and len(self.file.data) - (sg_pos[j] + sg_len[j]) < 4'},
-        may_raise={'ExceptionVisibleRecord': 'j == len(sg_pos) - 1', 'ExceptionLogicalRecordSegmentHeaderEOF': 'j == len(sg_pos) - 1'},
+        may_raise={'ExceptionVisibleRecord': 'j == len(sg_pos) - 1 and len(self.file.data) - (sg_pos[j] + sg_len[j]) >= 4',
+                   'ExceptionLogicalRecordSegmentHeaderEOF': 'j == len(sg_pos) - 1 and len(self.file.data) - (sg_pos[j] + sg_len[j]) >= 4'},
         # after the call the ghost cursor j has been advanced: j == old(j) + 1
         ensures=['j == old(j) + 1',
                  'implies(j < len(sg_pos), at(self, j, %s) and self.file.pos == sg_pos[j] + 4)' % LARGS,
